@@ -20,6 +20,13 @@ pub fn leaf_alphabet() -> Vec<String> {
         vec![1u64, 2, 3].into(), Vec::<u64>::new().into(),
         CBOR::to_tagged_value(1u64, 1700000000u64), CBOR::to_tagged_value(100u64, "x"),
         CBOR::to_tagged_value(200u64, CBOR::to_tagged_value(201u64, "inner")),
+        // leaves whose content looks like an envelope-level encoding: a tagged known value, a tagged digest, leaf tags, the
+        // arrays of an encrypted / compressed element, a bare 32-byte string
+        CBOR::to_tagged_value(40000u64, 7u64), CBOR::to_tagged_value(40000u64, 1u64), CBOR::to_tagged_value(40001u64, CBOR::to_byte_string(vec![5u8; 32])),
+        CBOR::to_tagged_value(201u64, "x"), CBOR::to_tagged_value(24u64, "x"),
+        CBOR::to_tagged_value(40002u64, vec![CBOR::to_byte_string(vec![1u8]), CBOR::to_byte_string(vec![0u8; 12]), CBOR::to_byte_string(vec![0u8; 16])]),
+        CBOR::to_tagged_value(40003u64, vec![CBOR::from(0u64), CBOR::from(0u64), CBOR::to_byte_string(Vec::<u8>::new())]),
+        CBOR::to_byte_string(vec![9u8; 32]), 40000u64.into(),
     ];
     let mut m = Map::new(); m.insert(1u64, "a"); m.insert("k", vec![1u64]); m.insert(-1i64, false);
     v.push(m.into());
